@@ -159,11 +159,10 @@ pub fn v_any<T, F: Fn(&T) -> bool>(s: &[T], f: F) -> (r: bool)
 pub assume_specification<T, E> [Option::<Result<T, E>>::transpose] (o: Option<Result<T, E>>) -> (r: Result<Option<T>, E>)
     ensures r == (match o { Some(Ok(x)) => Ok::<Option<T>, E>(Some(x)), Some(Err(e)) => Err::<Option<T>, E>(e), None => Ok::<Option<T>, E>(None) });
 
-/// R-std: `util::lcm(s.iter().flat_map(f))` with `f: &T -> Option<usize>` (trusted: the body is the original
-/// expression).  `vals` is a ghost description of what `f` returns per element (checked against the closure's
-/// own postcondition in `requires`); the contract states what the type builder relies on: the least common
-/// multiple of the present values is at least every non-zero value, and is zero only if a value is zero.
-#[verifier::external_body]
+/// R-std: `util::lcm(s.iter().flat_map(f))` with `f: &T -> Option<usize>` (**verified**): `flat_map` over an
+/// `Option`-valued closure visits the `Some` values in order, `util::lcm` is `iter.try_fold(1usize, step)` (shape
+/// checked textually at weave time), and `step` is the real closure body outlined as `util::lcm_step__v`.
+/// `vals` is a ghost description of what `f` returns per element.
 pub fn v_lcm_flat_map<T, F: Fn(&T) -> Option<usize>>(s: &[T], f: F, Ghost(vals): Ghost<Seq<Option<usize>>>) -> (r: Option<usize>)
     requires
         vals.len() == s@.len(),
@@ -173,7 +172,29 @@ pub fn v_lcm_flat_map<T, F: Fn(&T) -> Option<usize>>(s: &[T], f: F, Ghost(vals):
         r is Some && r->0 != 0 ==> forall|i: int| 0 <= i < vals.len() && (#[trigger] vals[i]) is Some && vals[i]->0 != 0 ==> vals[i]->0 <= r->0,
         r is Some && r->0 == 0 ==> exists|i: int| 0 <= i < vals.len() && #[trigger] vals[i] == Some(0usize),
 {
-    crate::util::lcm(s.iter().flat_map(f))
+    let mut acc: usize = 1;
+    let mut i: usize = 0;
+    while i < s.len()
+        invariant
+            i <= s.len(), vals.len() == s@.len(),
+            acc != 0 ==> forall|k: int| 0 <= k < i && (#[trigger] vals[k]) is Some && vals[k]->0 != 0 ==> vals[k]->0 <= acc,
+            acc == 0 ==> exists|k: int| 0 <= k < i && #[trigger] vals[k] == Some(0usize),
+            forall|k: int| 0 <= k < s@.len() ==> f.requires((&#[trigger] s@[k],)),
+            forall|k: int, o: Option<usize>| 0 <= k < s@.len() && #[trigger] f.ensures((&s@[k],), o) ==> o == vals[k],
+        decreases s.len() - i,
+    {
+        match f(&s[i]) {
+            Some(x) => {
+                match crate::util::lcm_step__v(acc, x) {
+                    Some(n) => { acc = n; }
+                    None => { return None; }
+                }
+            }
+            None => {}
+        }
+        i += 1;
+    }
+    Some(acc)
 }
 pub assume_specification [usize::is_power_of_two] (n: usize) -> (r: bool)
     ensures r == crate::verif_specs::is_pow2(n as nat);
